@@ -406,7 +406,8 @@ pub fn run_cli_bytes(bin: &str, dir: &str, n: usize, rendered: &Rendered, source
     let out: Vec<u8> = if timeout || truncated { out.into_iter().take(4096).collect() } else { out };
     let stderr_text = String::from_utf8_lossy(&err).to_string();
     let short: String = stderr_text.chars().take(300).collect();
-    evs.push(json!({"ev":"stdout","bytes":out,"status":status,"timeout":timeout,"truncated":truncated,"stderr":short}));
+    let steps = evs.iter().filter(|e| e["ev"] == "step").count();
+    evs.push(json!({"ev":"stdout","bytes":out,"status":status,"timeout":timeout,"truncated":truncated,"steps":steps,"stderr":short}));
     if std::env::var("VERIF_KEEP_SRC").is_err() {
         let _ = std::fs::remove_file(&src);
         let _ = std::fs::remove_file(&trc);
